@@ -5,6 +5,7 @@ let run_scenario (sc : scenario) : string =
   match sc.cls with
   | "STORE" -> Store_drv.run sc
   | "SPECREPLAY" -> Store_drv.run_spec sc
+  | "MC" -> Mc_drv.run sc
   | c -> "UNSUPPORTED " ^ c ^ "\n"
 
 let () =
